@@ -176,7 +176,20 @@ func (g *c12Gen) action() {
 		} else {
 			g.w("%s(%s, \"%s\");", bn.BDelKey, x, k)
 		}
-	case 9: // list twice in a row
+	case 9:
+		if g.pick("boxOrList", 2) == 0 {
+			// keep an object in an array element and reach it through the element
+			k := c12Keys[g.pick("key", len(c12Keys))]
+			v := g.u()
+			g.w("box[0] = %s;", x)
+			g.w("%s = box[0];", y)
+			g.vars[y] = ox
+			g.w("box[0].%s = %d;", k, v)
+			ox.m[k] = gVal{n: v}
+			g.mutated(ox)
+			return
+		}
+		// list twice in a row
 		g.w("%s %s(%s);", bn.KwPrint, bn.BKeys, x)
 		g.w("%s %s(%s);", bn.KwPrint, bn.BKeys, x)
 		g.w("%s %s(%s);", bn.KwPrint, bn.BValues, x)
@@ -197,6 +210,7 @@ func (g *c12Gen) program(nActions, fault int) string {
 	g.names = []string{"P", "Q", "R"}
 	g.w("%s setk(o, v) { o.k = v; }", bn.KwFun)
 	g.w("%s f() { }", bn.KwFun)
+	g.w("%s box = [nil];", bn.KwVar)
 	op, tp := g.newObj(1+g.pick("len", 4), false)
 	oq, tq := g.newObj(g.pick("len", 4), false)
 	g.vars["P"], g.vars["Q"], g.vars["R"] = op, oq, op
